@@ -278,7 +278,7 @@ pub fn extra_values7() -> Vec<u8> {
 }
 
 /// 14-bit numbers derived from the extra literals: the literals themselves and every ordered
-/// pair of the first 7-bit values as (msb, lsb); at most 40
+/// pair of the (at most 8) 7-bit values as (msb, lsb); at most 88
 pub fn extra_numbers14() -> Vec<u16> {
     let mut v: Vec<u16> = Vec::new();
     for &x in extra_literals() {
@@ -287,10 +287,10 @@ pub fn extra_numbers14() -> Vec<u16> {
         }
     }
     let v7 = extra_values7();
-    for &a in v7.iter().take(5) {
-        for &b in v7.iter().take(5) {
+    for &a in v7.iter() {
+        for &b in v7.iter() {
             let n = a as u16 * 128 + b as u16;
-            if !v.contains(&n) && v.len() < 40 {
+            if !v.contains(&n) && v.len() < 88 {
                 v.push(n);
             }
         }
